@@ -19,7 +19,7 @@ TRAPS = {101: "division by 0", 102: "assert failed", 103: "array index out of bo
 TRAP_CODE = {"div0": 101, "assert": 102, "index": 103, "nil": 104, "cast": 105, "oom": 106, "stack": 107,
              "illegal": 108, "overflow": 109, "shift": 110}
 
-GROUP = 40  # cases per group function (boots runs out of its own heap on very large functions)
+GROUP = 100  # cases per group function (boots runs out of its own heap on functions with thousands of calls)
 
 
 class Case:
